@@ -187,6 +187,9 @@ pub fn check_case(body: &[u8], filters: &[FilterSpec], headers: &Headers, stats:
 }
 
 pub fn replay(case: &Value) -> Vec<String> {
+    if let Some(r) = super::big::replay("C04", case) {
+        return r;
+    }
     let body: Vec<u8> = serde_json::from_value(case["body"].clone()).unwrap_or_default();
     let filters: Vec<FilterSpec> = serde_json::from_value(case["filters"].clone()).unwrap_or_default();
     let headers: Headers = serde_json::from_value(case["headers"].clone()).unwrap_or_default();
@@ -333,9 +336,12 @@ pub fn run(tier: Tier) -> i32 {
             samples.offer(|| json!({"body": String::from_utf8_lossy(&c.body), "filters": c.name, "relation": format!("{rel:?}")}));
         }
     });
+    let (big_cases, big_schedules) = super::big::run(&ctx, "C04", tier == Tier::Thorough);
     let st = states.load(Ordering::Relaxed);
     let tr = transitions.load(Ordering::Relaxed);
     let mut cov = Coverage::new();
+    cov.set("size_threshold_pass", json!({"cases": big_cases, "schedules_executed": big_schedules, "run_lengths": super::big::runs(tier == Tier::Thorough),
+        "what": "generated documents with one long run inside one construct, every schedule of the family: output minus the inserted values == input (minus the replaced element)"}));
     cov.set("states", json!(st))
         .set("transitions", json!(tr))
         .set("traces_validated_against_impl", json!(tr))
